@@ -4,3 +4,4 @@ import TvNetTcp.Model.Tcb
 import TvNetTcp.Model.Kernel
 import TvNetTcp.Model.Sys
 import TvNetTcp.Model.Spec
+import TvNetTcp.Model.Pair
